@@ -116,9 +116,9 @@ class C17(Prop):
     def gen(self, rng, tier):
         inner = ('etod', 'deco', 'tagger', 'tfr', 'tfr', 'multi', 'multi', 'e2s')
         leaves = ('old', 'ext', 'ext', 'tt', 'tt', 'tbt')
-        shape = R.gen_shape(rng, rng.choice([1, 2, 2, 3]), leaves=leaves, inner=inner)
+        shape = R.gen_shape(rng, rng.choice([1, 2, 2, 3]), leaves=leaves, inner=inner, fattr=0.15)
         while R.depth(shape) < 2 and rng.random() < 0.9:
-            shape = R.gen_shape(rng, rng.choice([1, 2, 2, 3]), leaves=leaves, inner=inner)
+            shape = R.gen_shape(rng, rng.choice([1, 2, 2, 3]), leaves=leaves, inner=inner, fattr=0.15)
         kinds = R.kinds_in(shape)
         return [shape, self.gen_hist(rng, shape, kinds)]
 
